@@ -87,10 +87,13 @@ theorem trim_digits (k : Nat) : trimAscii (Std.Decimal.natDigits k) = Std.Decima
   rw [dropWhile_none _ hns, dropWhile_none _ (fun c hc => hns c (List.mem_reverse.mp hc))]
   simp
 
-/-- the result limit: a positive limit survives (digits round trip, for every number), a non-positive one is not sent,
+/-- the result limit: a positive limit survives (digits round trip, for every positive Go `int`, i.e. below 2^63; the
+    server reads `nresults` into a 64-bit unsigned and converts to `int`), a non-positive one is not sent,
     and `nresults` 0 is answered with an empty multi-status without consulting the backend -/
-theorem C09_limit (k : Nat) (hk : k ≠ 0) : decLimit (encLimit (k : Int)) = .ok (some k) := by
+theorem C09_limit (k : Nat) (hk : k ≠ 0) (hmax : k < 9223372036854775808) : decLimit (encLimit (k : Int)) = .ok (some k) := by
   have hpos : (k : Int) > 0 := by omega
+  have h1 : ¬ k ≥ 18446744073709551616 := by omega
+  have h2 : ¬ k ≥ 9223372036854775808 := by omega
   unfold encLimit
   simp only [hpos, if_true]
   unfold decLimit
@@ -101,7 +104,7 @@ theorem C09_limit (k : Nat) (hk : k ≠ 0) : decLimit (encLimit (k : Int)) = .ok
     | cons a as => rfl
   simp only [el, List.filter_cons, Node.localIs, beq_self_eq_true, if_true, List.filter_nil, List.getLast?_singleton,
     Node.space?, nsCard, ne_eq, not_true_eq_false, if_false, chardata, String.append_empty, hd, trim_digits, hemp,
-    Bool.false_eq_true, Std.Decimal.readDigits_natDigits]
+    Bool.false_eq_true, Std.Decimal.readDigits_natDigits, h1, h2]
 
 theorem C09_limit_edge_cases :
     decLimit (encLimit 0) = .ok none ∧ decLimit (encLimit (-3)) = .ok none ∧
